@@ -2,8 +2,11 @@
 import json, vlib
 
 F = {"f1": ["p", "f1.graphql"], "f2": ["p", "f2.graphql"], "f3": ["p", "q", "f3.graphql"], "f4": ["p", "f4.graphql"],
-     "f5": ["p", "q", "r", "f5.graphql"]}
-FRAGS = {"f1": ["R"], "f2": ["A", "B"], "f3": ["C", "D"], "f4": ["E"], "f5": ["G", "H", "I"]}
+     "f5": ["p", "q", "r", "f5.graphql"],
+     # the same file names again in other directories: one relative spelling ("./f2.graphql", "../f2.graphql") then means
+     # different files depending on where the importing file is; fragment names overlap with the namesakes
+     "f6": ["p", "q", "f2.graphql"], "f7": ["p", "q", "r", "f2.graphql"], "f8": ["p", "q", "r", "f4.graphql"]}
+FRAGS = {"f1": ["R"], "f2": ["A", "B"], "f3": ["C", "D"], "f4": ["E"], "f5": ["G", "H", "I"], "f6": ["A", "K"], "f7": ["B", "L"], "f8": ["E", "M"]}
 
 
 def rel(frm, to, rng):
@@ -12,8 +15,8 @@ def rel(frm, to, rng):
     k = 0
     while k < len(d) and k < len(to) - 1 and d[k] == to[k]:
         k += 1
-    style = rng.below(4)
-    if style == 0:   # minimal
+    style = rng.below(6)
+    if style in (0, 4, 5):   # minimal
         ups = [".."] * (len(d) - k)
         comps = ups + to[k:]
         return comps if ups else ["."] + comps
@@ -88,11 +91,11 @@ def run(ctx, res):
     res.distinct_nontrivial = len({json.dumps(e["files"], sort_keys=True) + json.dumps(e["root"]) for e in kept
                                    if any(f["d"]["imports"] for f in e["files"])})
     res.exhaustive = True
-    res.rule = ("Spec->impl: Gen_C13's builder state graph = every sequence of <= %d import lines over 4 files "
+    res.rule = ("Spec->impl: Gen_C13's builder state graph = every sequence of <= %d import lines over 5 files (two of them namesakes in different directories) "
                 "(specific/wildcard/missing/duplicated names, two spellings per path, a dangling target, self-imports, "
                 "cycles, diamonds; every permutation is a distinct state); each case is rendered to GraphQL text, parsed "
                 "and resolved by the real code; impl->spec: Trace_C13 judges the resulting (file, definition) multiset "
-                "and the error verdict by Imports!ImportContract. Plus %d seeded random graphs with <= 6 lines over 5 "
+                "and the error verdict by Imports!ImportContract. Plus %d seeded random graphs with <= 6 lines over 8 "
                 "files. Non-trivial = distinct case with at least one import line." % (2 if ctx.quick else 3, nrand))
     res.samples = [kept[1], kept[len(kept) // 2], kept[-1]]
     res.extra.update({"tlc_generated_cases": ngen, "random_cases": nrand, "discarded_cases": discards,
